@@ -68,7 +68,7 @@ void rt_release_all(TaskCtx *t);
 void rt_event(TaskCtx *t, const char *what, uint64_t a = 0, uint64_t b = 0);
 
 // ---------------- scheduler (sched_nosan.cpp) ----------------
-struct SliceRec { int task; uint64_t edges; };
+struct SliceRec { int task; uint64_t edges; int kind; }; // kind: 0 slice used up at a basic-block edge, 1 ended at an operation boundary, 2 task finished
 enum SchedMode { SM_SLICES = 0, SM_PCT = 1, SM_REPLAY = 2 };
 struct SchedConfig {
     int mode = SM_SLICES;
